@@ -285,6 +285,7 @@ def run_history(hist, checks):
                     fails.append(fail('afterPrintDone with an open episode returned %r (excluding afterwards: %s)' % (r, p.state.excluding), k, hist, 'C15:fire'))
                 if ok and refpos:
                     COUNTS['C15:position'] = COUNTS.get('C15:position', 0) + 1
+                    zmax_ = max(P.z, U.z)          # the travel back happens at the higher of where the printer was left and where the file is
                     # the contribution leads the printer to the position the file assumes, in plain-decimal commands a firmware reads the same way
                     for c in r[0]:
                         cc_ = reader.read(c) if isinstance(c, str) else None
@@ -294,7 +295,11 @@ def run_history(hist, checks):
                             if not wf:
                                 fails.append(fail('clean-up command %r is not well-formed plain-decimal G-code: %s' % (c, why), k, hist, 'C15:shape'))
                         if isinstance(c, str):
-                            P.execute(c)
+                            zb_ = P.z
+                            eff_ = P.execute(c)
+                            if eff_.get('moved_xy') and zb_ < zmax_ and not O.close(zb_, zmax_):
+                                fails.append(fail('clean-up travel %r happens at Z=%s, below max(Z where the printer was left, Z of the file)=%s' % (c, float(zb_), float(zmax_)),
+                                                  k, hist, 'C15:travel-height'))
                     if not (O.close(P.x, U.x) and O.close(P.y, U.y) and O.close(P.z, U.z) and O.close(P.e, U.e)):
                         fails.append(fail('after the clean-up the printer stands at (%s, %s, %s, E%s) but the file assumes (%s, %s, %s, E%s)'
                                           % (float(P.x), float(P.y), float(P.z), float(P.e), float(U.x), float(U.y), float(U.z), float(U.e)), k, hist, 'C15:position'))
